@@ -306,6 +306,10 @@ pub fn cli_core(thorough: bool) -> Vec<&'static str> {
         "[a, b, c] = 1",
         "[a, b] < [c]",
         "if a then b else c",
+        "(exists x, x # x & a) | x",
+        "exists x # (mu x # x | a) & x",
+        "x' <=> (x & -y')",
+        "gr\u{f6}\u{df}e | b",
         "lfp X # X | a",
         "gfp X # X & (a | b)",
         "a & -a",
